@@ -67,6 +67,7 @@ var c40AssertOK = map[string]string{
 
 func runC40(w *World, r *Report) {
 	r.Rule("R-C40-1", "constant index / slice bound into a slice or string of unknown length is behind a len() test implying it", 100)
+	r.Rule("R-C40-7", "a pointer-typed struct member that the function tests against nil somewhere (the optional members of request bodies) is dereferenced only where a test of the same member found it non-nil", 5)
 	r.Rule("R-C40-2", "single-result type assertion only on values whose dynamic type is fixed by construction (listed with reason)", 10)
 	r.Rule("R-C40-3", "explicit panic sites reachable from a handler are a frozen list", 2)
 	r.Rule("R-C40-4", "integer division / remainder: constant non-zero divisor, or behind a test of the divisor against zero", 8)
@@ -257,6 +258,9 @@ func runC40(w *World, r *Report) {
 
 		// ---- R-C40-5 nil-check contradiction
 		c40NilContradictions(w, r, fn, mkKey)
+
+		// ---- R-C40-7 optional members
+		c40OptionalMembers(w, r, fn, "R-C40-7", c40OptionalOK)
 	}
 
 	// ---- R-C40-6 integers parsed from text are range-tested before they size or index anything
@@ -1025,4 +1029,161 @@ func (s *c40Stores) assertFixedByStore(ta *ssa.TypeAssert) string {
 	}
 
 	return "every assignment of " + strings.TrimPrefix(strings.TrimPrefix(k, "f:"), "g:") + " (" + sprintInt(len(opened)) + " site(s)) is resources.Open of that element type; Read builds rows with reflect.New of it"
+}
+
+var c40OptionalOK = map[string]string{}
+
+// ---------------------------------------------------------------------------
+// R-C40-7 (and R-C07-11): optional members.
+//
+// A pointer-typed struct field that the function tests against nil somewhere
+// (so the code itself believes it can be absent: the optional members of JSON
+// request bodies are *bool / *string / *int fields) is dereferenced only where
+// a test of the same field of the same struct value found it non-nil.
+
+type c40FieldPath struct {
+	base  ssa.Value
+	field int
+}
+
+func c40FieldPathOf(v ssa.Value) (c40FieldPath, bool) {
+	ld, ok := v.(*ssa.UnOp)
+	if !ok || ld.Op != token.MUL {
+		return c40FieldPath{}, false
+	}
+
+	fa, ok := ld.X.(*ssa.FieldAddr)
+	if !ok {
+		return c40FieldPath{}, false
+	}
+
+	if _, isPtr := ld.Type().Underlying().(*types.Pointer); !isPtr {
+		return c40FieldPath{}, false
+	}
+
+	base := fa.X
+	if l, isLoad := base.(*ssa.UnOp); isLoad && l.Op == token.MUL {
+		base = resolveLocal(base)
+	}
+
+	return c40FieldPath{base, fa.Field}, true
+}
+
+func c40OptionalMembers(w *World, r *Report, fn *ssa.Function, rule string, okTable map[string]string) {
+	// field paths the function tests against nil
+	tested := map[c40FieldPath]bool{}
+
+	for _, b := range fn.Blocks {
+		if len(b.Instrs) == 0 {
+			continue
+		}
+
+		ifi, ok := b.Instrs[len(b.Instrs)-1].(*ssa.If)
+		if !ok {
+			continue
+		}
+
+		for _, f := range edgeFacts(ifi.Cond, true) {
+			if f.Kind == "nil" || f.Kind == "nonnil" {
+				if fp, ok := c40FieldPathOf(f.V); ok {
+					tested[fp] = true
+				}
+			}
+		}
+	}
+
+	if len(tested) == 0 {
+		return
+	}
+
+	count := map[string]int{}
+
+	allInstrs(fn, func(in ssa.Instruction) {
+		var ptr ssa.Value
+
+		switch x := in.(type) {
+		case *ssa.UnOp:
+			if x.Op == token.MUL {
+				ptr = x.X
+			}
+		case *ssa.Store:
+			ptr = x.Addr
+		case *ssa.FieldAddr:
+			ptr = x.X
+		}
+
+		if ptr == nil {
+			return
+		}
+
+		fp, ok := c40FieldPathOf(ptr)
+		if !ok || !tested[fp] {
+			return
+		}
+
+		cuts := cutEdges(fn, func(f Fact) bool {
+			if f.Kind != "nonnil" {
+				return false
+			}
+
+			other, ok := c40FieldPathOf(f.V)
+
+			return ok && other == fp
+		})
+
+		key := fnKey(fn) + "|optional member " + fieldName(fieldBaseType(ptr), fp.field)
+		count[key]++
+
+		if n := count[key]; n > 1 {
+			key += "#" + sprintInt(n)
+		}
+
+		// `if x.m == nil { x.m = &T{} }`: a store of a fresh object into the member ends the nil path
+		fresh := func(i ssa.Instruction) bool {
+			st, ok := i.(*ssa.Store)
+			if !ok {
+				return false
+			}
+
+			fa, ok := st.Addr.(*ssa.FieldAddr)
+			if !ok || fa.Field != fp.field {
+				return false
+			}
+
+			base := fa.X
+			if l, isLoad := base.(*ssa.UnOp); isLoad && l.Op == token.MUL {
+				base = resolveLocal(base)
+			}
+
+			if base != fp.base {
+				return false
+			}
+
+			_, isAlloc := st.Val.(*ssa.Alloc)
+
+			return isAlloc
+		}
+
+		reached := pathFromEntryAvoiding(fn, cuts, fresh, func(i ssa.Instruction) bool { return i == in })
+
+		switch {
+		case reached == nil:
+			r.Discharge(rule, key, w.pos(in.Pos()), "dereferenced only where the same member was found non-nil (or was just given a fresh object)")
+		case okTable[key] != "":
+			r.Except(rule, key, w.pos(in.Pos()), okTable[key])
+		default:
+			r.Violate(rule, key, w.pos(in.Pos()), "the function tests this member against nil elsewhere, but this dereference is reachable without passing the non-nil edge of such a test: a request (or value) that leaves the member out panics here")
+		}
+	})
+}
+
+// fieldBaseType: the struct (pointer) type whose field the load ptr reads.
+func fieldBaseType(ptr ssa.Value) types.Type {
+	if ld, ok := ptr.(*ssa.UnOp); ok {
+		if fa, ok := ld.X.(*ssa.FieldAddr); ok {
+			return fa.X.Type()
+		}
+	}
+
+	return ptr.Type()
 }
